@@ -155,7 +155,9 @@ func c18SpecRemote(spec WorldSpec) bool {
 			return true
 		}
 	}
-	return c18SpecHas(spec, "WithDCR") || c18SpecHas(spec, "WithJWTBearerGrant") || c18SpecHas(spec, "WithJAR") || c18SpecHas(spec, "WithJARByReference")
+	// (the jwt-bearer grant is in the model: Token.jwt_bearer_grant; the directed jwt-bearer histories of this suite
+	// use jwks_uri clients and stay on the Go side for that reason)
+	return c18SpecHas(spec, "WithDCR") || c18SpecHas(spec, "WithJAR") || c18SpecHas(spec, "WithJARByReference")
 }
 
 func c18Resp(status int, body string) *http.Response {
